@@ -65,6 +65,8 @@ struct Gates {
     /// re-arms `should_notify`) until the run it spawned has parked, so that "the run read the flag before the tick
     /// re-armed it" does not depend on how fast the pool thread is scheduled
     want_hold: AtomicBool,
+    /// the cancelling tick in progress lets a parked run go only after a delay (it must block on the worker lock until then)
+    delay_release: AtomicBool,
     /// hold the next run in front of its k-th scored item (0 = off); falls back to `run.end`
     hold_item: AtomicU64,
     item_count: AtomicU64,
@@ -201,6 +203,7 @@ fn run_history(rng: &mut Rng, mode: &str, _k: usize) -> String {
         hold_run: AtomicBool::new(false),
         hold_end: AtomicBool::new(false),
         want_hold: AtomicBool::new(false),
+        delay_release: AtomicBool::new(false),
         hold_item: AtomicU64::new(0),
         item_count: AtomicU64::new(0),
         parked_kind: AtomicU64::new(0),
@@ -287,7 +290,17 @@ fn run_history(rng: &mut Rng, mode: &str, _k: usize) -> String {
             "tick.cancel_lock" => {
                 // the cancelling tick is about to block on the worker lock: let a parked run go
                 if g.parked.load(Ordering::SeqCst) {
-                    g.release.store(true, Ordering::SeqCst);
+                    if g.delay_release.swap(false, Ordering::SeqCst) {
+                        // the run in flight keeps the worker lock well beyond the tick's timeout: the cancelling tick has to
+                        // wait for it (its lock is a blocking one), whatever timeout it was given
+                        let g2 = g.clone();
+                        std::thread::spawn(move || {
+                            std::thread::sleep(Duration::from_millis(40));
+                            g2.release.store(true, Ordering::SeqCst);
+                        });
+                    } else {
+                        g.release.store(true, Ordering::SeqCst);
+                    }
                 }
             }
             _ => {}
@@ -613,8 +626,10 @@ fn run_history(rng: &mut Rng, mode: &str, _k: usize) -> String {
                 // it spawned itself, which must be given the time to finish whatever the load on the machine is.
                 let cancels = state_cancels || nucleo::verif::pattern_status(&h.nucleo.pattern) != 0;
                 state_cancels = false;
+                h.gates.delay_release.store(run_parked && cancels && hold == 1 && rng.chance(1, 2), Ordering::SeqCst);
                 let st = h.nucleo.tick(if hold != 0 || (run_parked && !cancels) { 15 } else { 3000 });
                 h.gates.want_hold.store(false, Ordering::SeqCst);
+                h.gates.delay_release.store(false, Ordering::SeqCst);
                 // a run spawned with a hold flag that has not reached its gate yet: wait until it parks (a tick that spawned
                 // nothing -- its lock attempt timed out on a run parked earlier -- has nothing to wait for)
                 let t0 = std::time::Instant::now();
